@@ -6,7 +6,7 @@ GEN = ['HetFacts']
 TRUSTED = ['C08 (Kronecker product vs dimension-wise Markov steps is checked there against dense references), C09']
 ASSUMPTIONS = ['the Coq theorem only states that two loops presenting the same step and expectation operators record the same values; that HetBlock and StageBlock (and '
                'multi-dimensional vs Kronecker exogenous states) do so is checked by paired runs on the implementation',
-               'two-dimensional continuous stages (Continuous2D) are not exercised: StageBlock.jacobian with a 2-D stage raises AttributeError on this tree (DESIGN section 6, D8)']
+               'two-dimensional continuous stages: the two-asset household vs its Continuous2D stage rendition (D8, the AttributeError of the linearised 2-D lottery, found here and fixed)']
 HEADER = ''
 
 
@@ -14,12 +14,12 @@ def correspondence(ctx):
     return dict(evaluations=0, distinct_nontrivial=0, rule='none (see oracle)', samples=[], disagreements=[], stats={})
 
 
-def pair_checks(name, b1, ss1, b2, ss2, inputs, outputs, T, out, jtol, shocks):
+def pair_checks(name, b1, ss1, b2, ss2, inputs, outputs, T, out, jtol, shocks, sstol=1e-7, nltol=1e-7):
     n = 0
     inp = dict(kind='pair', pair=name)
     for O in outputs:
         n += 1
-        if abs(ss1[O] - ss2[O]) > 1e-7 * max(1, abs(ss1[O])):
+        if abs(ss1[O] - ss2[O]) > sstol * max(1, abs(ss1[O])):
             C.push(out, dict(what=f'steady-state aggregate {O} differs between the two formulations', input=inp, observed=[float(ss1[O]), float(ss2[O])], signature=dict(op='steady_state', pair=name)))
     J1 = b1.jacobian(ss1, inputs, outputs, T=T)
     J2 = b2.jacobian(ss2, inputs, outputs, T=T)
@@ -37,7 +37,7 @@ def pair_checks(name, b1, ss1, b2, ss2, inputs, outputs, T, out, jtol, shocks):
             sc = max(np.abs(l1[O]).max(), 1e-8)
             if np.abs(l1[O] - l2[O]).max() > jtol * sc:
                 C.push(out, dict(what='linear impulses differ between the two formulations', input=dict(inp, shocked=sorted(sh), o=O), signature=dict(op='impulse_linear', pair=name)))
-            if np.abs(n1[O] - n2[O]).max() > 1e-7 * max(1, np.abs(n1[O]).max()):
+            if np.abs(n1[O] - n2[O]).max() > nltol * max(1, np.abs(n1[O]).max()):
                 C.push(out, dict(what='nonlinear impulses differ between the two formulations', input=dict(inp, shocked=sorted(sh), o=O), observed=float(np.abs(n1[O] - n2[O]).max()), signature=dict(op='impulse_nonlinear', pair=name)))
     return n
 
@@ -62,6 +62,15 @@ def check(rng, deep):
         C.push(out, dict(what='steady-state distributions differ between independent Markov dimensions and their Kronecker product', input=dict(kind='pair', pair='multi-kron'), signature=dict(op='internals', pair='multi-kron')))
     shocks = [{'r': 0.002 * 0.8 ** np.arange(T)}, {'shift_z': 0.004 * 0.7 ** np.arange(T)}, {'shift_e': 0.003 * 0.5 ** np.arange(T), 'w': 0.01 * np.ones(T)}]
     n += pair_checks('multi-kron', m.multi, ssm, m.kron, ssk, ['r', 'w', 'shift_e', 'shift_z', 'beta'], ['A', 'C'], T, out, 1e-6, shocks)
+    # the two-asset household as a backward-function block and as a stage block with a TWO-dimensional continuous choice
+    sst2, ssh2 = m.twoasset_stage.steady_state(m.TWO_CALIB), m.twoasset.steady_state(m.TWO_CALIB)
+    n += 1
+    d2h, d2s = ssh2.internals[m.twoasset.name], sst2.internals[m.twoasset_stage.name]
+    if np.abs(d2h['D'] - d2s['portfolio']['D']).max() > 1e-5 or np.abs(d2h['a'] - d2s['portfolio']['a']).max() > 1e-5 or np.abs(d2h['b'] - d2s['portfolio']['b']).max() > 1e-5:
+        C.push(out, dict(what='steady-state distribution / policies differ between the two-asset backward-function block and its two-dimensional stage rendition', input=dict(kind='pair', pair='twoasset-stage2d'), signature=dict(op='internals', pair='twoasset-stage2d')))
+    T2 = 6
+    shocks = [{'rb': 0.002 * 0.7 ** np.arange(T2)}, {'ra': 0.001 * np.ones(T2), 'tax': np.r_[0.0, 0.01, np.zeros(T2 - 2)]}]
+    n += pair_checks('twoasset-stage2d', m.twoasset, ssh2, m.twoasset_stage, sst2, ['rb', 'ra', 'tax', 'beta'], ['A', 'B', 'C'], T2, out, 5e-3, shocks, sstol=2e-5, nltol=2e-6)      # tolerances of the inner iterations of the two-asset problem
     # three independent exogenous dimensions vs their Kronecker product (the running expectation across dimensions must be cumulative)
     mc3 = m.multi3_calib()
     ss3, ssk3 = m.multi3.steady_state(mc3), m.kron3.steady_state(mc3)
@@ -83,7 +92,7 @@ def oracle(ctx, hints, broken):
         viol, n = [dict(what=f'C10 oracle raised {type(ex).__name__}: {ex}', input=dict(kind='raise', trace=traceback.format_exc()[-800:]), signature=dict(op='raise'))], 1
     return dict(evaluations=n, violations=viol,
                 rule='the same one-asset household as a backward-function block and as a two-stage block (inputs incl. Markov shifters, an input moving both the matrix and '
-                     'income, income-process parameters, hetoutput), and a household with two independent Markov dimensions vs their Kronecker product (separate shifters), and the same with three independent dimensions: '
+                     'income, income-process parameters, hetoutput), and a household with two independent Markov dimensions vs their Kronecker product (separate shifters), the same with three independent dimensions, and the two-asset household vs its two-dimensional stage rendition: '
                      'steady-state aggregates, distributions, policies, Jacobians, linear and nonlinear impulses')
 
 
